@@ -542,3 +542,52 @@ func Harness_C10_LetAndScopeNames() {
 	nd.Assert("scopevar:evaluates", ok && res != nil && len(GetValueSlice(res)) == 1)
 	nd.Assert("scopevar:outer-variable-of-the-same-name-restored", scope2["x"] != nil && scope2["x"].GetI() == outer)
 }
+
+// Go functions exposed to views: the value of FindAllString / MatchString depends on the
+// arguments of that call alone — not on which other calls were evaluated before it — and a
+// result handed out earlier is not changed by a later call. The argument triples include
+// pairs whose concatenations coincide.
+func Harness_C10_GoFuncsIndependent() {
+	type call struct {
+		pattern, word string
+		n             int
+		want          []string
+	}
+	pool := []call{
+		{"a|b", "ba", -1, []string{"b", "a"}},
+		{"a|bb", "a", -1, []string{"a"}},
+		{"x", "xx1", 1, []string{"x"}},
+		{"x", "xx", 11, []string{"x", "x"}},
+		{"a", "", -1, nil},
+		{"", "a", -1, []string{"", ""}},
+		{"a|b", "ba", 1, []string{"b"}},
+	}
+	same := func(got, want []string) bool {
+		if len(got) != len(want) {
+			return false
+		}
+		for i := range got {
+			if got[i] != want[i] {
+				return false
+			}
+		}
+		return true
+	}
+	c1 := pool[nd.IntRange("first-call", 0, len(pool)-1)]
+	c2 := pool[nd.IntRange("second-call", 0, len(pool)-1)]
+	var r1, r2 []string
+	var m1, m2 bool
+	failed, _ := nd.Recovered(func() {
+		r1 = FindAllString(c1.pattern, c1.word, c1.n)
+		m1 = MatchString(c1.pattern, c1.word)
+		r2 = FindAllString(c2.pattern, c2.word, c2.n)
+		m2 = MatchString(c2.pattern, c2.word)
+	})
+	nd.Assert("gofuncs:no-crash", !failed)
+	if failed {
+		return
+	}
+	nd.Assert("gofuncs:first-call-value", same(r1, c1.want))
+	nd.Assert("gofuncs:second-call-independent-of-first", same(r2, c2.want))
+	nd.Assert("gofuncs:match-agrees-with-find", m1 == (len(c1.want) > 0) && m2 == (len(c2.want) > 0))
+}
